@@ -430,6 +430,12 @@ pub trait PartDyn: Sync {
     fn name(&self) -> &'static str;
     fn run(&self, rep: &mut Report);
     fn replay(&self, case: &Value) -> Result<Outcome, String>;
+    /// Coverage-guided entry: the fuzzer's bytes are the random stream of the part's proptest
+    /// strategy (proptest's PassThrough RNG), so the same generator and the same oracle are used.
+    /// Returns the rendered case and the failure, if the oracle rejected it.
+    fn fuzz_bytes(&self, data: &[u8]) -> Option<(Value, Failure)>;
+    /// Like `fuzz_bytes`, then shrink with the harness's shrinker and save a replay file.
+    fn fuzz_to_replay(&self, data: &[u8], rep: &Report) -> Option<(PathBuf, Failure)>;
 }
 
 pub struct Part<C: 'static> {
@@ -582,6 +588,35 @@ where
     fn replay(&self, case: &Value) -> Result<Outcome, String> {
         let c: C = serde_json::from_value(case.clone()).map_err(|e| format!("bad case: {}", e))?;
         Ok((self.exec)(&c))
+    }
+
+    fn fuzz_bytes(&self, data: &[u8]) -> Option<(Value, Failure)> {
+        let cfg = Config {
+            failure_persistence: None,
+            ..Config::default()
+        };
+        let mut runner = TestRunner::new_with_rng(cfg, TestRng::from_seed(RngAlgorithm::PassThrough, data));
+        let strat = (self.strategy)(Tier::Thorough);
+        let tree = strat.new_tree(&mut runner).ok()?;
+        let case = tree.current();
+        let out = (self.exec)(&case);
+        out.fail.map(|f| (render(&case), f))
+    }
+
+    fn fuzz_to_replay(&self, data: &[u8], rep: &Report) -> Option<(PathBuf, Failure)> {
+        let cfg = Config {
+            failure_persistence: None,
+            ..Config::default()
+        };
+        let mut runner = TestRunner::new_with_rng(cfg, TestRng::from_seed(RngAlgorithm::PassThrough, data));
+        let strat = (self.strategy)(Tier::Thorough);
+        let mut tree = strat.new_tree(&mut runner).ok()?;
+        let case = tree.current();
+        let out = (self.exec)(&case);
+        let f = out.fail?;
+        let (min_case, min_fail, _) = self.shrink(&mut *tree, &f);
+        let path = self.save_replay(rep, &min_case, &min_fail, -1_000_000);
+        Some((path, min_fail))
     }
 
     fn run(&self, rep: &mut Report) {
